@@ -154,6 +154,8 @@ def framing (code : List (List Byte × Byte)) (translate reverse cutend : Bool) 
   match findRow r.name inputs with
   | none => "result-for-unknown-sequence"
   | some s =>
+    -- no alignment with a positive score: the result is removed and carries the untrimmed input
+    if r.removed && r.pos == 0 && r.nt == s && r.codon == s && r.aa.isEmpty then "" else
     let strands := if reverse then [s, revcompIgnoringError s] else [s]
     let sub := strands.any fun t =>
       occursAt r.nt t r.pos && (cutend || r.pos + r.nt.length == t.length)
